@@ -543,10 +543,13 @@ void Exec::run_call(int idx) {
   }
   if (oi.level == 3) {
     n_life++;
-    if (sim_current_task() < 0 && (sim_lib_live_total() != life_live || sim_lib_live_since(life_mark) != 0)) {
+    const bool own_bracket = c.op == OP_LIFE_MODULE_PAIR || c.op == OP_LIFE_MODULE_SEQ;  // these bracket each new/delete pair themselves
+    const int pair_leaks = op_leak_errors();
+    op_leak_errors() = 0;
+    if (sim_current_task() < 0 && (own_bracket ? pair_leaks != 0 : (sim_lib_live_total() != life_live || sim_lib_live_since(life_mark) != 0))) {
       Violation v;
       v.kind = "leak";
-      v.detail = std::string(oi.name) + ": " + std::to_string(sim_lib_live_since(life_mark)) + " block(s) still allocated after delete";
+      v.detail = std::string(oi.name) + ": " + std::to_string(own_bracket ? pair_leaks : sim_lib_live_since(life_mark)) + " block(s) allocated by new_* still allocated after the matching delete_*";
       v.call = idx;
       v.op = c.op;
       viol.push_back(v);
